@@ -5,6 +5,7 @@ Imports model files only (no Mathlib) so it links as a `lean_exe`.
 import S4V.Model.Wire
 import S4V.Model.Path
 import S4V.Model.Lines
+import S4V.Model.Coord
 
 open S4V.Model S4V.Model.Wire
 
@@ -59,11 +60,57 @@ def stepLine : List String → String
     | _, _ => "bad-op"
   | _ => "bad-op"
 
+def parseTEv (t : String) : Option Coord.TEv :=
+  match t.splitOn ":" with
+  | ["RI", i, ok] => i.toNat?.map (fun i => .rI i (ok = "1"))
+  | ["RM", i, dt] => match i.toNat?, parseInt? dt with
+    | some i, some dt => some (.rM i dt)
+    | _, _ => none
+  | ["RS", i, ok] => i.toNat?.map (fun i => .rS i (ok = "1"))
+  | ["RX", i] => i.toNat?.map (fun i => .rX i)
+  | ["P", i, dt] => match i.toNat?, parseInt? dt with
+    | some i, some dt => some (.p i dt)
+    | _, _ => none
+  | ["B"] => some .b
+  | ["E"] => some .e
+  | _ => none
+
+/-- scripts = per-source subsequence of the observed receive events -/
+def scriptsOf (n : Nat) (evs : List Coord.TEv) : List (List Coord.Datum) :=
+  (List.range n).map fun i =>
+    let ds := evs.filterMap fun
+      | .rI j ok => if i = j then some (Coord.Datum.fileInfo ok) else none
+      | .rM j dt => if i = j then some (Coord.Datum.msg ⟨dt, 0⟩) else none
+      | .rS j ok => if i = j then some (Coord.Datum.summary ok) else none
+      | _ => none
+    -- tag messages by their index within the source
+    (ds.foldl (fun (acc : List Coord.Datum × Nat) d =>
+      match d with
+      | .msg m => (acc.1 ++ [Coord.Datum.msg ⟨m.dt, acc.2⟩], acc.2 + 1)
+      | d => (acc.1 ++ [d], acc.2)) ([], 0)).1
+
+def stepCoord : List String → String
+  | n :: toks =>
+    match n.toNat? with
+    | none => "bad-op"
+    | some n =>
+      match toks.mapM parseTEv with
+      | none => "bad-op"
+      | some evs =>
+        let scripts := scriptsOf n evs
+        match Coord.replay (Coord.init scripts) evs 0 with
+        | .error k => s!"not-enabled {k}"
+        | .ok s =>
+          let merged := decide (s.printed = Coord.merge (scripts.map Coord.msgsOf))
+          s!"ok printed={s.printed.length} merged={merged} fin={s.fin} broke={s.broke}"
+  | _ => "bad-op"
+
 def step (line : String) : String :=
   match words line with
   | "path" :: rest => stepPath rest
   | "line" :: rest => stepLine rest
   | "blk" :: rest => stepBlk rest
+  | "coord" :: rest => stepCoord rest
   | _ => "bad-op"
 
 partial def loop (h : IO.FS.Stream) (out : IO.FS.Stream) : IO Unit := do
